@@ -11,9 +11,12 @@ is called at scripted moments (during connect, while waiting for the bind answer
 the grace period, during back-off); the observed connect / bound / unbind / return times are
 compared with the model's, in all three bind modes and for several back-off parameters.
 
+CONNECTIONS (Model/Supervisor.lean `conns`, driver op supc): every connection that is established is closed, one at a
+time, each before the next is opened and before start() returns (`connections_closed`), tied to the code by the observed
+open / close times of the same runs.
+
 What the theorems do not cover (decided by predicates on the observed runs): that the session state
-is CLOSED, that every connection is closed and that the unbind reaches the wire (after repair
-f1bdb3b); how long a bound session needs to wind down after stop() when the peer neither answers the
+is CLOSED and that the unbind reaches the wire (after repair f1bdb3b); how long a bound session needs to wind down after stop() when the peer neither answers the
 unbind nor closes (`lat`: bounded by enquire_link_interval + 1 s, observed, not derived).
 -/
 import SmppVerif.Lemmas.Supervisor
@@ -59,6 +62,21 @@ theorem stop_bounded (ts lat gs S G B : Nat) (hS : S + G ≤ B) (hL : lat ≤ B)
     (hw : ScriptWF S G script) (h : returnedAt (run (some ts) lat gs s script) = some tr) : tr ≤ ts + B :=
   Lemmas.Supervisor.stop_bounded ts lat gs S G B hS hL hgs script s tr ht hb hc hw h
 
+/-- EVERY CONNECTION THAT IS ESTABLISHED IS CLOSED, ONE AT A TIME: whatever the faults and whenever stop() is called (or
+    never; `early`: whether a connection whose session ended by itself can still be written to when stop() falls into the
+    time its tasks need to end - then it is closed at once, otherwise at the end of the cycle), the connections of a run are (opened, closed) pairs in time order - each is closed before the next one is
+    opened, and the last one before the run ends; without stop() each cycle whose `open_connection` succeeded contributes
+    exactly one pair. -/
+theorem connections_closed (stop : Option Nat) (early : Bool) (script : List Outcome) (s : St) :
+    Balanced s.t (conns stop early s script) ∧
+    (conns none early s script).length = 2 * (script.filter fun o => match o with | .connFail _ => false | _ => true).length :=
+  ⟨conns_balanced stop early script s, conns_count early script s⟩
+
+/-- non-vacuity: the script of the example below; the session's connection is closed when its tasks have ended (24 s) -/
+example : conns (some 40000) true ⟨0, Backoff.init 1000 5⟩
+    [.connFail 0, .connFail 0, .bindFail 0, .session 0 20000 1000, .connFail 0, .connFail 5000, .connFail 0, .connFail 0] =
+    [.opened 1000, .closed 1000, .opened 3000, .closed 24000] := by decide +kernel
+
 /-- non-vacuity: refused, refused, bind rejected, a 20 s session ended by the peer, refused; min 1 s,
     5 doublings; stop() at 40 s falls into the 8 s back-off sleep after the last failure -/
 example : run (some 40000) 1000 500 ⟨0, Backoff.init 1000 5⟩
@@ -82,3 +100,4 @@ end SmppVerif.Props.C07
 #print axioms SmppVerif.Props.C07.bind_resets_backoff
 #print axioms SmppVerif.Props.C07.stop_bounded
 #print axioms SmppVerif.Props.C07.start_cycle_step_order
+#print axioms SmppVerif.Props.C07.connections_closed
